@@ -295,6 +295,7 @@ class ProgGen(Gen):
         d2.impls = []
         P.add_type(d2)
         self.ifaces.append(d2)
+        self.iface_mb = d2
 
     def fill_impls(self):
         for d in self.structs + self.nameds:
@@ -565,6 +566,85 @@ class ProgGen(Gen):
         self.feat.add('blank-field-compare')
         self.charge(cx, 30)
         self.budget -= 6
+        return out
+
+    def s_embfunc(self, cx):
+        """embedding (by value and by pointer) of a struct that CARRIES A FUNC-TYPED FIELD: promoted methods called directly,
+        through interfaces (static conversion, type assertion, type switch) and as method values; the promoted func field called"""
+        r = self.rng
+        P = self.P
+        K = self.mret[0]
+        I1, I2 = ('named', self.iface_ma), ('named', self.iface_mb)
+        if I1[1].pkg > cx.pkg:
+            return None
+        if not hasattr(self, '_embf'):
+            fty = P.sig([K], [K])
+            b = TypeDecl('%sFb%d' % (self.pfx, len(P.types)), 'struct', cx.pkg)
+            b.fields = [('N', K, False), ('Fn', fty, False)]
+            P.add_type(b)
+            B = ('named', b)
+            ma = Func(b.name + '_Ma', b.pkg)
+            ma.recv, ma.mname, ma.pure = (b, False), 'Ma', True
+            m = Var(P.slot(), 'm', B)
+            ma.params, ma.results = [m], [Var(P.slot(), 'r', K)]
+            ma.body = [Return([Bin('add', Bin('mul', Sel(VarRef(m), 'N', K), IntLit(K, 3)), IntLit(K, 1))])]
+            ma.cost = 4
+            mb = Func(b.name + '_Mb', b.pkg)
+            mb.recv, mb.mname, mb.pure = (b, True), 'Mb', False
+            m2, a2 = Var(P.slot(), 'm', ('ptr', B)), Var(P.slot(), 'a', K)
+            mb.params = [m2, a2]
+            mb.body = [Assign([Sel(VarRef(m2), 'N', K)], [Bin('add', Sel(VarRef(m2), 'N', K), VarRef(a2))])]
+            mb.cost = 4
+            for f in (ma, mb):
+                P.add_func(f)
+                b.mdecls.append(f)
+            o = TypeDecl('%sFo%d' % (self.pfx, len(P.types)), 'struct', cx.pkg)
+            o.fields = [(b.name, B, True), ('Tag', K, False)]
+            P.add_type(o)
+            q = TypeDecl('%sFp%d' % (self.pfx, len(P.types)), 'struct', cx.pkg)
+            q.fields = [(b.name, ('ptr', B), True), ('Tag', K, False)]
+            P.add_type(q)
+            self._embf = (b, o, q, fty)
+        b, o, q, fty = self._embf
+        if b.pkg > cx.pkg:
+            return None
+        B, O, Q = ('named', b), ('named', o), ('named', q)
+        nv = lambda t, h: self.newvar(cx, t, h)
+        bv, ov, qv = nv(B, 'fb'), nv(O, 'fo'), nv(Q, 'fp')
+        lit = self.closure(cx, fty, nstmts=1)
+        out = [Decl([bv], [StructLit(B, [self.int_expr(cx, K, 1), lit])]),
+               Decl([ov], [StructLit(O, [VarRef(bv), self.int_expr(cx, K, 1)])]),
+               Decl([qv], [StructLit(Q, [Addr(VarRef(bv)), self.int_expr(cx, K, 1)])]),
+               Print(True, [StrLit(b"direct"), MCall(VarRef(ov), 'Ma', [], K), MCall(VarRef(qv), 'Ma', [], K), MCall(Addr(VarRef(ov)), 'Ma', [], K)])]
+        # static conversions to interfaces: value embedding (value and pointer), pointer embedding (value)
+        g1, g2, g3, g4 = nv(I1, 'g'), nv(I1, 'g'), nv(I1, 'g'), nv(I2, 'g')
+        out += [Decl([g1], [ToIface(I1, VarRef(ov))]), Decl([g2], [ToIface(I1, Addr(VarRef(ov)))]), Decl([g3], [ToIface(I1, VarRef(qv))]),
+                Decl([g4], [ToIface(I2, VarRef(qv))]),
+                Print(True, [StrLit(b"converted"), ICall(VarRef(g1), 'Ma', [], K), ICall(VarRef(g2), 'Ma', [], K), ICall(VarRef(g3), 'Ma', [], K),
+                             ICall(VarRef(g4), 'Ma', [], K)]),
+                ExprS(ICall(VarRef(g4), 'Mb', [self.int_expr(cx, K, 1)], None)),
+                Print(True, [StrLit(b"after Mb"), Sel(VarRef(bv), 'N', K), MCall(VarRef(qv), 'Ma', [], K), MCall(VarRef(ov), 'Ma', [], K)])]
+        # dynamic: assertion and type switch on boxed values
+        for src, nm in ((VarRef(ov), b"outer value"), (Addr(VarRef(ov)), b"outer pointer"), (VarRef(qv), b"ptr-embedding value")):
+            y, v, ok = nv('any', 'y'), nv(I1, 'g'), nv(BOOL, 'ok')
+            out += [Decl([y], [ToIface('any', src)]), Decl([v, ok], [Assert(VarRef(y), I1, True)]),
+                    If([], VarRef(ok), [Print(True, [StrLit(nm), StrLit(b"implements"), ICall(VarRef(v), 'Ma', [], K)])],
+                       [Print(True, [StrLit(nm), StrLit(b"does NOT implement")])])]
+            slot = P.slot()
+            xs = [Var(slot, 'w%d_0' % slot, I2), Var(slot, 'w%d_1' % slot, I1), Var(slot, 'w%d_d' % slot, 'any')]
+            out.append(TypeSwitch('', xs, VarRef(y), [TCase([I2], [Print(True, [StrLit(b"case Ma+Mb"), ICall(VarRef(xs[0]), 'Ma', [], K)])]),
+                                                      TCase([I1], [Print(True, [StrLit(b"case Ma"), ICall(VarRef(xs[1]), 'Ma', [], K)])]),
+                                                      TCase([], [Print(True, [StrLit(b"case default")])], default=True)]))
+        # method values and the promoted func-typed field
+        mv, mq, rr, r2, r3 = nv(P.sig([], [K]), 'mv'), nv(P.sig([], [K]), 'mv'), nv(K, 'r'), nv(K, 'r'), nv(K, 'r')
+        out += [Decl([mv], [MVal(VarRef(ov), 'Ma', P.sig([], [K]))]), Decl([mq], [MVal(VarRef(qv), 'Ma', P.sig([], [K]))]),
+                ExprS(MCall(VarRef(ov), 'Mb', [IntLit(K, 2)], None)),
+                Decl([rr], [CallV(VarRef(mv), [])]), Decl([r2], [CallV(VarRef(mq), [])]),
+                Decl([r3], [CallV(Sel(VarRef(ov), 'Fn', fty), [self.int_expr(cx, K, 1)])]),
+                Print(True, [StrLit(b"method values"), VarRef(rr), VarRef(r2), VarRef(r3), MCall(VarRef(ov), 'Ma', [], K)])]
+        self.feat.add('embedding-of-struct-with-func-field')
+        self.charge(cx, 200)
+        self.budget -= 10
         return out
 
     def s_ifaceeq(self, cx):
@@ -864,6 +944,12 @@ class ProgGen(Gen):
             if c < 0.16:
                 body += self.s_iface_chain(cx)
                 continue
+            if c < 0.5 and not hasattr(self, '_embf_done') and self.budget < 50:
+                self._embf_done = True
+                st = self.s_embfunc(cx)
+                if st:
+                    body += st
+                    continue
             if c < 0.3 and not hasattr(self, '_ifeq_done') and self.budget < 45:
                 self._ifeq_done = True
                 st = self.s_ifaceeq(cx)
